@@ -118,6 +118,7 @@ class Obj:
         self.funcs = funcs
         self.isa = set(isa)             # class names this record is an instance of (empty: any)
         self.clsname = None             # set by absint.instance: private attributes (self.__x) are then mangled as Python does
+        self.owners = None              # method name -> defining class (the class whose name mangles the private names in that method)
 
     def call(self, name, *args, **kwargs):
         fn = self.methods.get(name)
@@ -131,7 +132,7 @@ class Obj:
                 raise TypeError('%s() takes no positional argument (self)' % name)
             env[params[0]] = (self.target if isinstance(self, _Bound) else self)
         if getattr(self, 'clsname', None):
-            env['__cls__'] = self.clsname
+            env['__cls__'] = (getattr(self, 'owners', None) or {}).get(name, self.clsname)
         _bind_params(fn, params if static else params[1:], args, kwargs, env, self.funcs, name)
         body = fn.body
         if body and isinstance(body[0], ast.Expr) and isinstance(body[0].value, ast.Constant) and isinstance(body[0].value.value, str):
